@@ -16,6 +16,7 @@ From Coq Require Import NArith ZArith List Bool Arith.
 From KdV Require Import Base.Wrap64 Map.MapModel Map.MapSpec Map.MapProofs.
 From KdV Require Import Res.OomMap.
 From KdV Require Import Res.Tokens Res.TokensProofs Res.OomModel Res.OomSpec Res.OomProofs.
+From KdV Require Import Res.SysLayout Res.SysLayoutProofs.
 Import ListNotations.
 
 (** kdump_new: for every failure index n the call returns NULL exactly when an
@@ -144,6 +145,35 @@ Theorem C18_map_set_atomic : forall m a e mm,
    forall y, denote (fst (MapModel.step m (OpSet a e mm false))) y = set_spec (denote m) a e mm y).
 Proof. exact map_set_atomic. Qed.
 Print Assumptions C18_map_set_atomic.
+
+(** sys_set_layout (libaddrxlat, sys.c) with its nested SYS_ACT_DIRECT ->
+    sys_set_layout on the reverse direct map: for every layout (any regions,
+    any of them with a nested direct-map layout, any pattern of "this
+    addrxlat_map_set must grow the array"), started on any system (the two maps
+    existing or not), under every allocation schedule: no block is left
+    without an owner - whatever the call allocated belongs to the map that is
+    installed in the system (so sys_cleanup releases it), and the status is
+    failure exactly when an allocation failed *)
+Theorem C18_sys_set_layout_unwind : forall cur dir rs s T0 L K P F,
+  PSt s (mtoks cur ++ mtoks dir ++ T0) L K P F ->
+  wp (sys_set_layout Head cur dir rs) (layout_post T0 L K P F) s.
+Proof. exact sys_set_layout_owned. Qed.
+Print Assumptions C18_sys_set_layout_unwind.
+
+Theorem C18_sys_layout_session_clean : forall rs sch,
+  let '(ok, tr, fl) := run (layout_session Head rs) sch in
+  clean tr /\ (ok = false <-> fl = true).
+Proof. exact layout_session_clean. Qed.
+Print Assumptions C18_sys_layout_session_clean.
+
+(** a variant that installs a new map only after all regions are set, and
+    drops it when internal_map_set fails, loses it when the nested direct-map
+    set-up fails (third allocation of a layout with one SYS_ACT_DIRECT region) *)
+Theorem C18_sys_layout_late_install_refuted :
+  exists rs n, let '(ok, tr, _) := run (layout_session Late rs) (fail_nth n) in
+               ok = false /\ ~ balanced tr.
+Proof. exact layout_late_witness. Qed.
+Print Assumptions C18_sys_layout_late_install_refuted.
 
 (** The pinned (unrepaired) code does not have the property - witnesses that
     the correspondence check replays on the pinned library:
